@@ -421,7 +421,11 @@ pub fn drive(vectors: &str, cfg_vectors: Option<&str>, seed: u64, out: &str, tho
   let n_mut = if thorough { 600 } else { 60 };
   for k in 0..n_mut {
     let base = &cases[rng.below(cases.len())].1.clone();
-    cases.push((format!("mut{k}"), mutate(base, &mut rng), json!({"mutation": true, "matches": "n/a"})));
+    // a mutated document can still hold the construct of a listed known finding: said by the text itself
+    let text = mutate(base, &mut rng);
+    let keeps_rel = text.contains("\"has\":{\"matches\":\"u\"") && text.contains("\"inside\":{\"matches\":\"u\"");
+    let keeps_rw = text.contains("\"rewriters\":[\"rw\"],\"source\":\"$B\"");
+    cases.push((format!("mut{k}"), text, json!({"mutation": true, "matches": "n/a", "rewriters": "n/a", "keeps_relational_cycle": keeps_rel, "keeps_self_rewriter": keeps_rw})));
   }
   let scratch = format!("/var/tmp/agv-c11-{}", std::process::id());
   std::fs::create_dir_all(&scratch).unwrap();
